@@ -282,7 +282,12 @@ def writePropLines (n : Nat) (a : WAtom) : List Str :=
   (if a.rad then [sL "M  RAD  1 " ++ fmtD 3 n ++ sL "   2\n"] else []) ++
   (if a.charge == -4 || a.charge == 4 then [sL "M  CHG  1 " ++ fmtD 3 n ++ sL " " ++ fmtD 3 a.charge ++ sL "\n"] else [])
 
-def enumFrom1 (l : List α) : List (Nat × α) := (List.range l.length).map (· + 1) |>.zip l
+/-- `enumerate(l, start=k)` -/
+def enumFromK : Nat → List α → List (Nat × α)
+  | _, [] => []
+  | k, a :: as => (k, a) :: enumFromK (k + 1) as
+
+def enumFrom1 (l : List α) : List (Nat × α) := enumFromK 1 l
 
 /-- `MOLWrite._write_molecule(g)` as a list of written chunks (one per `file.write` line; the first chunk is
 `name\n\n\n<counts>\n`, split here into its four lines). -/
